@@ -112,6 +112,18 @@ class StoreScan:
                 self.stores += 1
                 ok = x["op"] in ("+=", "-=")
                 how = x["op"]
+                if not ok and x["op"] == "=":
+                    # long-hand accumulation: `out[i] = acc;` where the scalar local acc was initialised from the very same element and has
+                    # only been added to / subtracted from (directly or through its address) since
+                    rv = strip(kids(x)[1])
+                    if rv.get("k") == "DeclRefExpr" and rv.get("dk") == "Var":
+                        d0 = next((v for v in decls if v["did"] == rv["did"]), None)
+                        if d0 is not None and kids(d0) and self.facts.ntext(kids(d0)[0]) == self.facts.ntext(lhs):
+                            writes = [y for y in walk(b) if y.get("k") in ("BinaryOperator", "CompoundAssignOperator") and y.get("op", "").endswith("=") and y.get("op") not in ("==", "!=", "<=", ">=")
+                                      and strip(kids(y)[0]).get("k") == "DeclRefExpr" and strip(kids(y)[0]).get("did") == rv["did"]]
+                            if all(y.get("op") in ("+=", "-=") for y in writes):
+                                ok = True
+                                how = "= (accumulator seeded from the same element)"
                 self.res.instance("C08.1.accumulate-only", "%s %s@%d" % (here, fn["name"], x["l"][1]), facts.loc(x), "%s %s ..." % (facts.ntext(lhs)[:60], how))
                 if not ok:
                     self.res.violation("C08.1.accumulate-only", f, fn["qname"], "%s:%s@%d" % (self.op, facts.ntext(lhs)[:40], x["l"][1]), x["l"][1],
